@@ -73,5 +73,6 @@ noncomputable instance : Transc ℝ where
   ltb := fun a b => decide (a < b)
   leb := fun a b => decide (a ≤ b)
   eqb := fun a b => decide (a = b)
+  ofInt := fun n => (n : ℝ)
 
 end Rateslib
